@@ -20,6 +20,7 @@ try:
     demo_rel = meta["demo_path_in_worktree"]
     demo_cmd = meta["demo_cmd"]
     demo_cmd = re.sub(r"^cd \S+\s*&&\s*", "", demo_cmd)
+    demo_cmd = re.split(r"\s{2,}\(|\s+\(also|\s+#", demo_cmd)[0].strip()
     os.makedirs(os.path.join(wt, os.path.dirname(demo_rel)), exist_ok=True)
     shutil.copy(os.path.join(src, "demo.rs"), os.path.join(wt, demo_rel))
     rc0, o0 = sh(demo_cmd)
